@@ -8,8 +8,14 @@
 //!                                (what RibUnitRunner::run does on GateStatus::Reconfiguring); the API is NOT rebuilt
 //!   P k asn|-|x                  peer k: registered with remote AS / without / not registered
 //!   A k fam addr/len tag path comms   announce (fam 0 v4u 1 v6u 2 v4m 3 v6m; addr hex;
-//!                                     path: '-' or comma list of ASNs, 's' = an AS_SET segment;
-//!                                     comms: '-' (no attribute) or comma list of u32)
+//!                                     path: '-' or comma list of ASNs, 's' = an AS_SET segment, 'n' = the AS_SEQUENCE
+//!                                     segment ends here (the next ASN starts another one);
+//!                                     comms: '-' (no community attribute) or items separated by '/', one per
+//!                                     community-carrying attribute, in the order they get in the UPDATE:
+//!                                     `u32,u32,..` = COMMUNITIES (decimal), `K=hex,hex,..` with K = s COMMUNITIES(8)
+//!                                     e EXTENDED COMMUNITIES(16) l LARGE_COMMUNITY(32) x IPv6 extended(25), each
+//!                                     member as its 8/16/24/40 hex digits; the item `*` = where ORIGIN, AS_PATH,
+//!                                     NEXT_HOP, MED stand (default: in front of the community attributes))
 //!   W k fam addr/len             withdraw one prefix
 //!   D k fam|-                    Update::Withdraw(id, family?) (session lost)
 //!   Q af addr/len rawquery|-     GET /prefixes/<prefix>[?rawquery]   (af 4|6)
@@ -79,11 +85,47 @@ fn finish(body: Vec<u8>) -> Bytes {
     Bytes::from(v)
 }
 
-/// an UPDATE announcing one prefix
+fn hex_octets(h: &str) -> Vec<u8> {
+    assert!(h.len() % 2 == 0, "even number of hex digits");
+    (0..h.len() / 2).map(|i| u8::from_str_radix(&h[2 * i..2 * i + 2], 16).expect("hex")).collect()
+}
+
+/// one community-carrying attribute of the case line: `u32,u32,..` (COMMUNITIES, decimal) or
+/// `K=hex,hex,..` with K = s (COMMUNITIES 8) e (EXTENDED COMMUNITIES 16) l (LARGE_COMMUNITY 32)
+/// x (IPv6 address specific extended communities 25); the hex digits are the octets of a member
+fn community_attr(item: &str) -> Vec<u8> {
+    match item.split_once('=') {
+        None => {
+            let mut cs: Vec<u8> = vec![];
+            for c in item.split(',') { cs.extend_from_slice(&c.parse::<u32>().expect("community").to_be_bytes()); }
+            attr(0xc0, 8, &cs)
+        }
+        Some((k, vals)) => {
+            let (code, size) = match k { "s" => (8u8, 4usize), "e" => (16, 8), "l" => (32, 12), "x" => (25, 20), _ => panic!("community kind {k}") };
+            let mut cs: Vec<u8> = vec![];
+            for v in vals.split(',').filter(|v| !v.is_empty()) {
+                let o = hex_octets(v);
+                assert_eq!(o.len(), size, "member size of community kind {k}");
+                cs.extend(o);
+            }
+            attr(0xc0, code, &cs)
+        }
+    }
+}
+
+/// an UPDATE announcing one prefix. `comms`: '-' or items separated by '/', in the order they get
+/// in the UPDATE; the item `*` stands for the block ORIGIN, AS_PATH, NEXT_HOP, MED (without it
+/// that block comes first); an MP_REACH_NLRI is always the last attribute
 pub fn announce_bytes(fam: u32, p: &Pfx, tag: u32, path: &str, comms: &str) -> Bytes {
     let mut pas: Vec<u8> = vec![];
+    let items: Vec<&str> = if comms == "-" { vec![] } else { comms.split('/').collect() };
+    let (before, after): (Vec<&str>, Vec<&str>) = match items.iter().position(|i| *i == "*") {
+        Some(k) => (items[..k].to_vec(), items[k + 1..].to_vec()),
+        None => (vec![], items.clone()),
+    };
+    for item in &before { pas.extend(community_attr(item)); }
     pas.extend(attr(0x40, 1, &[0])); // ORIGIN igp
-    // AS_PATH: runs of ASNs become AS_SEQUENCE segments, 's' an AS_SET {64999}
+    // AS_PATH: runs of ASNs become AS_SEQUENCE segments, 's' an AS_SET {64999}, 'n' cuts a run in two segments
     let mut segs: Vec<u8> = vec![];
     if path != "-" {
         let mut run: Vec<u32> = vec![];
@@ -100,6 +142,8 @@ pub fn announce_bytes(fam: u32, p: &Pfx, tag: u32, path: &str, comms: &str) -> B
                 flush(&mut run, &mut segs);
                 segs.extend_from_slice(&[1, 1]);
                 segs.extend_from_slice(&64999u32.to_be_bytes());
+            } else if h == "n" {
+                flush(&mut run, &mut segs); // the sequence goes on in a new AS_SEQUENCE segment
             } else {
                 run.push(h.parse().expect("asn"));
             }
@@ -109,11 +153,7 @@ pub fn announce_bytes(fam: u32, p: &Pfx, tag: u32, path: &str, comms: &str) -> B
     pas.extend(attr(0x40, 2, &segs));
     if fam == 0 { pas.extend(attr(0x40, 3, &[10, 0, 0, 1])); }
     pas.extend(attr(0x80, 4, &tag.to_be_bytes())); // MED carries the announcement's tag
-    if comms != "-" {
-        let mut cs: Vec<u8> = vec![];
-        for c in comms.split(',') { cs.extend_from_slice(&c.parse::<u32>().expect("community").to_be_bytes()); }
-        pas.extend(attr(0xc0, 8, &cs));
-    }
+    for item in &after { pas.extend(community_attr(item)); }
     let mut nlri: Vec<u8> = vec![];
     if fam == 0 {
         nlri = p.nlri();
